@@ -77,6 +77,9 @@ impl<'a, 'tcx> D<'a, 'tcx> {
                 o.push(("name", J::s(ident.name.to_string())));
                 o.push(("local", J::i(hid.local_id.as_u32())));
                 o.push(("byref", J::Bool(matches!(mode.0, hir::ByRef::Yes(..)))));
+                if matches!(mode.1, rustc_ast::Mutability::Mut) {
+                    o.push(("mut", J::Bool(true)));
+                }
                 o.push(("ty", J::s(self.cx.ty_str(self.tr.pat_ty(p)))));
                 if let Some(s) = sub {
                     o.push(("sub", self.pat(s)));
